@@ -41,14 +41,20 @@ Proof.
   - unfold closed_inv in I. rewrite Hc in I. destruct (I eq_refl) as (W & D).
     destruct e as [t k|t order|t|t|t order|t cl order|]; cbn [step] in H.
     + destruct (get_pc (pcs s) t); try discriminate. rewrite D in H. cbn [take_idle] in H.
-      destruct (connect_must_wait _).
-      * rewrite (refuse_wait_closed s Hc) in H. injection H as <-. split; assumption.
-      * injection H as <-. destruct (proceed_no_idle c s t k D) as (A & B & _). rewrite A. split; assumption.
+      assert (H' : start_tail c s t k = Some s') by (destruct (connect_fast_path _); exact H). clear H.
+      unfold start_tail in H'. destruct (connect_must_wait _).
+      * rewrite (refuse_wait_closed s Hc) in H'. injection H' as <-. split; assumption.
+      * injection H' as <-. destruct (proceed_no_idle c s t k D) as (A & B & _). rewrite A. split; assumption.
     + destruct (get_pc (pcs s) t) as [| k f | | | | |]; try discriminate. destruct f; try discriminate.
       * set (s1 := with_woken s (filter (fun x => negb (x =? t)) (woken s))) in *.
         destruct (wait_slot_found _).
         -- injection H as <-. destruct (proceed_no_idle c s1 t k D) as (A & B & _). rewrite A. split; assumption.
-        -- rewrite (refuse_wait_closed s1 Hc) in H. injection H as <-. split; assumption.
+        -- unfold requeue in H. destruct (hand_on c s1 order) as [s2|] eqn:Eh; [|discriminate].
+           destruct (hand_on_frame _ _ _ _ Eh) as (_ & _ & I2 & D2 & _). destruct (hand_on_facts _ _ _ _ Eh) as (F1 & _).
+           assert (Hc2 : closed s2 = true) by (rewrite D2; exact Hc).
+           rewrite (refuse_wait_closed s2 Hc2) in H. injection H as <-. cbn [with_pc waiters idle]. split.
+           ++ apply nil_of_no_member. intros x Hx. apply F1 in Hx. cbn [s1 with_woken waiters] in Hx. rewrite W in Hx. exact Hx.
+           ++ rewrite I2. exact D.
       * injection H as <-. cbn [with_pc with_waiters waiters idle]. rewrite W. split; [reflexivity|exact D].
       * destruct (release_waiter c _ order) as [s2|] eqn:Er; [|discriminate]. injection H as <-.
         destruct (release_waiter_facts _ _ _ _ Er) as (F1 & _).
@@ -72,12 +78,12 @@ Proof.
     destruct e as [t k|t order|t|t|t order|t cl order|]; cbn [step] in H;
       try (pose proof (step_closed c s _ s') as X).
     + exfalso. destruct (get_pc (pcs s) t); try discriminate.
-      destruct (take_idle k (idle s)); [injection H as <-; rewrite proceed_closed in Hc'; congruence|].
-      destruct (connect_must_wait _); [|injection H as <-; rewrite proceed_closed in Hc'; congruence].
-      destruct (refuse_wait s); injection H as <-; cbn in Hc'; congruence.
+      destruct (if connect_fast_path (avail c s k) then take_idle k (idle s) else None);
+        [injection H as <-; rewrite proceed_closed in Hc'; congruence|].
+      rewrite (start_tail_closed _ _ _ _ _ H) in Hc'. congruence.
     + exfalso. destruct (get_pc (pcs s) t) as [| k f | | | | |]; try discriminate. destruct f; try discriminate.
       * destruct (wait_slot_found _); [injection H as <-; rewrite proceed_closed in Hc'; cbn in Hc'; congruence|].
-        destruct (refuse_wait _); injection H as <-; cbn in Hc'; congruence.
+        rewrite (requeue_closed _ _ _ _ _ _ H) in Hc'. cbn in Hc'. congruence.
       * injection H as <-. cbn in Hc'. congruence.
       * destruct (release_waiter c _ order) as [s2|] eqn:Er; [|discriminate]. injection H as <-.
         apply release_waiter_closed in Er. cbn [with_pc closed with_woken] in *. congruence.
@@ -123,8 +129,13 @@ Proof.
   destruct (wait_slot_found (avail c s1 k)).
   - eexists. split; [reflexivity|]. destruct (proceed_no_idle c s1 t k D) as (_ & _ & P).
     split; [rewrite proceed_closed; exact Hc|right; exact P].
-  - rewrite (refuse_wait_closed s1 Hc). eexists. split; [reflexivity|]. split; [exact Hc|left].
-    cbn [with_pc pcs]. apply get_set_same.
+  - unfold requeue. destruct (hand_on c s1 order) as [s2|] eqn:Eh.
+    + destruct (hand_on_frame _ _ _ _ Eh) as (_ & _ & _ & D2 & _).
+      assert (Hc2 : closed s2 = true) by (rewrite D2; exact Hc).
+      rewrite (refuse_wait_closed s2 Hc2). eexists. split; [reflexivity|]. split; [exact Hc2|left].
+      cbn [with_pc pcs]. apply get_set_same.
+    + exfalso. unfold hand_on, release_waiter in Eh. destruct requeue_hands_on; [|discriminate].
+      cbn [s1 with_woken waiters] in Eh. rewrite (proj1 (close_no_waiter c tr s H Hc)) in Eh. cbn in Eh. discriminate.
 Qed.
 
 Lemma creating_fails_after_close c s t k :
